@@ -31,6 +31,18 @@ theorem toNat_append (a b : List Bool) : toNat (a ++ b) = toNat a + 2 ^ a.length
   | zero => rfl
   | succ k ih => simp [List.replicate_succ, ih]
 
+/-- `k` copies of a bit: `2^k - 1` times the bit. -/
+theorem toNat_replicate_add (k : Nat) (b : Bool) :
+    toNat (List.replicate k b) + b.toNat = 2 ^ k * b.toNat := by
+  induction k with
+  | zero => simp
+  | succ k ih =>
+    simp only [List.replicate_succ, toNat_cons, Nat.pow_succ]
+    generalize toNat (List.replicate k b) = T at *
+    generalize 2 ^ k = P at *
+    have : P * 2 * b.toNat = 2 * (P * b.toNat) := by grind
+    omega
+
 theorem toNat_append_zeros (a : List Bool) (k : Nat) : toNat (a ++ List.replicate k false) = toNat a := by
   simp [toNat_append]
 
